@@ -5,6 +5,7 @@
 From Coq Require Import List Arith Sorted.
 Import ListNotations.
 Require Import QtlVerif.SortedDefs QtlVerif.SortedProofs QtlVerif.SrcSorted.
+Require QtlVerif.PipelineDefs QtlVerif.SrcPipeline QtlVerif.SortedExecProofs.
 
 (* the translated source passes the decidable well-formedness check (by computation) *)
 Theorem C17_source_configuration_good : cfg_goodb src_cfg = true.
@@ -46,6 +47,29 @@ Print Assumptions C17_clear_removes_only_its_class.
 Theorem C17_oracle_holds : forall ops, prop_c17_b (run_cfg src_cfg ops) = true.
 Proof. exact (fun ops => oracle_holds src_cfg ops C17_source_configuration_good). Qed.
 Print Assumptions C17_oracle_holds.
+
+(* the property's last sentence — "hence attributes are always set before any filter or formatter runs
+   and formatting always precedes every sink": under the pipeline semantics of C01 (instantiated with
+   the configuration translated from pipeline.cpp), for every history of typed calls without nested
+   pipelines, every assignment of handler objects of the right classes to the list entries, every
+   handler state and message, the handlers that actually run are a prefix of the list (cut at the
+   first rejection) in list order, hence in class order *)
+Theorem C17_pipeline_semantics_configuration_good :
+  QtlVerif.PipelineDefs.cfg_goodb QtlVerif.SrcPipeline.src_cfg = true.
+Proof. vm_compute. reflexivity. Qed.
+Print Assumptions C17_pipeline_semantics_configuration_good.
+Theorem C17_execution_follows_class_order : forall ops leaf_of st m,
+  exists pre, (exists rest, run_cfg src_cfg ops = pre ++ rest)
+    /\ map QtlVerif.PipelineProofs.ev_oid
+          (QtlVerif.PipelineDefs.res_events
+             (QtlVerif.PipelineDefs.run QtlVerif.SrcPipeline.src_cfg
+                (QtlVerif.SortedExecProofs.to_handlers leaf_of (run_cfg src_cfg ops)) st m)) = map snd pre
+    /\ StronglySorted (fun a b => rank (fst a) <= rank (fst b)) pre.
+Proof.
+  exact (QtlVerif.SortedExecProofs.execution_follows_class_order src_cfg QtlVerif.SrcPipeline.src_cfg
+           C17_source_configuration_good C17_pipeline_semantics_configuration_good).
+Qed.
+Print Assumptions C17_execution_follows_class_order.
 
 (* non-vacuity: a history mixing all calls, out of class order, with clears *)
 Example C17_nonvacuous :
